@@ -1,20 +1,21 @@
 #!/bin/bash
 # build.sh <outdir> [extra cflags...] -- build the hooked library (libmyth-v.a) + vrt from /repo's working tree
 set -e
+V=$(dirname "$(dirname "$(realpath "$0")")")
 OUT=$1; shift
 REPO=${REPO:-/repo}
 mkdir -p "$OUT"
 CFG="$REPO/src/config.h"
 INC="-I$REPO/include -I$REPO/src"
-if [ ! -f "$CFG" ]; then mkdir -p "$OUT/cfg"; cp /verif/tools/config.h.fallback "$OUT/cfg/config.h"; INC="$INC -I$OUT/cfg"; fi
-CFLAGS="-O2 -g -DMYTH_VERIF -D_GNU_SOURCE -D_XOPEN_SOURCE -D_DARWIN_C_SOURCE -DMYTH_WRAP=MYTH_WRAP_VANILLA $INC -I/verif/vrt -w $*"
+if [ ! -f "$CFG" ]; then mkdir -p "$OUT/cfg"; cp $V/tools/config.h.fallback "$OUT/cfg/config.h"; INC="$INC -I$OUT/cfg"; fi
+CFLAGS="-O2 -g -DMYTH_VERIF -D_GNU_SOURCE -D_XOPEN_SOURCE -D_DARWIN_C_SOURCE -DMYTH_WRAP=MYTH_WRAP_VANILLA $INC -I$V/vrt -w $*"
 SRCS="myth_log myth_sched myth_internal_barrier myth_bind_worker myth_worker myth_sync myth_init myth_misc myth_tls myth_thread myth_context myth_if_native myth_real myth_eco"
 pids=()
 for s in $SRCS; do
   gcc $CFLAGS -c "$REPO/src/$s.c" -o "$OUT/$s.o" 2> "$OUT/$s.err" &
   pids+=($!)
 done
-gcc -O2 -g -I/verif/vrt -c /verif/vrt/vrt.c -o "$OUT/vrt.o" 2> "$OUT/vrt.err" &
+gcc -O2 -g -I$V/vrt -c $V/vrt/vrt.c -o "$OUT/vrt.o" 2> "$OUT/vrt.err" &
 pids+=($!)
 fail=0
 for p in "${pids[@]}"; do wait $p || fail=1; done
